@@ -201,7 +201,14 @@ theorem fclaimE_succ {n : Nat} (hE : FClaimE n) (hB : FClaimB n) (hC : FClaimC n
       | zero =>
         rw [Ref.eval, Ref.eval]; trivial
       | succ k => exact simF_call hA hU (hG k rfl) hok he.2 hrel hseg
-    | _ => simp [Ff] at he
+    | _ =>
+      rw [ff_call_nonsym (fun _ hh => by cases hh)] at he
+      simp only [Bool.and_eq_true] at he
+      rw [compile_call_nonsym isFn c args gs (fun _ hh => by cases hh)] at hc
+      injection hc with hc; subst hc
+      cases n with
+      | zero => rw [Ref.eval, Ref.eval]; trivial
+      | succ k => exact simF_callE hE hA hU (hG k rfl) he.1 he.2 hrel hseg
   | fn ps rest body =>
     have hfo : fnOk = true := by
       rw [Ff] at he
